@@ -192,6 +192,24 @@ XalanTransformToData(
             char**          theOutput,
             XalanHandle     theXalanHandle)
 {
+    return XalanTransformToDataWithLength(
+                theXMLFileName,
+                theXSLFileName,
+                theOutput,
+                0,
+                theXalanHandle);
+}
+
+
+
+XALAN_TRANSFORMER_EXPORT_FUNCTION(int)
+XalanTransformToDataWithLength(
+            const char*     theXMLFileName, 
+            const char*     theXSLFileName,
+            char**          theOutput,
+            unsigned long*  theOutputLength,
+            XalanHandle     theXalanHandle)
+{
     using std::ostrstream;
 
     int status = 0;     
@@ -222,6 +240,12 @@ XalanTransformToData(
 
     if (status == 0)
     {
+        if (theOutputLength != 0)
+        {
+            // The length does not include the terminating null byte.
+            *theOutputLength = static_cast<unsigned long>(theOutputStream.pcount());
+        }
+
         // Null-terminate the data.
         theOutputStream << '\0';
 
@@ -239,6 +263,24 @@ XalanTransformToDataPrebuilt(
             char**          theOutput,
             XalanHandle     theXalanHandle)
 {
+    return XalanTransformToDataPrebuiltWithLength(
+                theParsedSource,
+                theCSSHandle,
+                theOutput,
+                0,
+                theXalanHandle);
+}
+
+
+
+XALAN_TRANSFORMER_EXPORT_FUNCTION(int)
+XalanTransformToDataPrebuiltWithLength(
+            XalanPSHandle   theParsedSource, 
+            XalanCSSHandle  theCSSHandle,
+            char**          theOutput,
+            unsigned long*  theOutputLength,
+            XalanHandle     theXalanHandle)
+{
     using std::ostrstream;
 
     ostrstream  theOutputStream;    
@@ -252,6 +294,12 @@ XalanTransformToDataPrebuilt(
 
     if (status == 0)
     {
+        if (theOutputLength != 0)
+        {
+            // The length does not include the terminating null byte.
+            *theOutputLength = static_cast<unsigned long>(theOutputStream.pcount());
+        }
+
         // Null-terminate the data.
         theOutputStream << '\0';
 
